@@ -113,6 +113,36 @@ def resToJson (r : DR J) : Json :=
   | .error .typeErr => Json.mkObj [("err", .str "TypeError")]
   | .error .valueErr => Json.mkObj [("err", .str "ValueError")]
 
+/-- evidence only: the first clause of `regionOK` that fails (empty when inside the region) -/
+partial def regionWhyFs (S : StrFns) (camel : Bool) (L : List Mapper) (depth : Nat) : List Fld → String
+  | [] => ""
+  | .scalar _ _ :: fs => regionWhyFs S camel L depth fs
+  | .nested n _ _ ci fs' :: fs =>
+    let L' := ci.ser ++ enumsOf L
+    let here :=
+      if !ci.des.isNone then "nested-deserialization-mapper"
+      else if !trackOK S L n then "nested-entry-not-tracked"
+      else if !ci.ser.all plainMapper then "nested-own-mapper-not-plain"
+      else if fs'.isEmpty then "nested-class-empty"
+      else if !prefixOK S fs' [] L' then "nested-rekey-collision"
+      else if !reaggOK S L' fs' then
+        (if fs'.any (fun f => match f with | .nested _ _ _ c2 _ => !(c2.ser.isEmpty && c2.desL.isEmpty) | _ => false)
+         then (if (enumsOf L').isEmpty then s!"own-mapper-at-depth>={depth + 2}:other"
+               else s!"own-mapper-at-depth>={depth + 2}-under-an-enum-mapper")
+         else "reaggregation-level-not-ok")
+      else if !mkeysNodup (shapeFields S (L' ++ camelTail camel) fs') then "camel-round-collision"
+      else regionWhyFs S camel (L' ++ camelTail camel) (depth + 1) fs'
+    if here != "" then here else regionWhyFs S camel L depth fs
+
+def regionWhy (S : StrFns) (c : Cls) (ov : Option MDict) (camel : Bool) : String :=
+  let L := effList c.own ov camel
+  if !c.des.isNone then "deserialization-mapper"
+  else if !wfFields c.fields then "duplicate-field-names"
+  else if !L.all plainMapper then "top-mapper-not-plain(nested-entry-or-dict-value)"
+  else if !prefixOK S c.fields [] L then "top-rekey-collision"
+  else if !mkeysNodup (shapeFields S L c.fields) then "top-keys-collide"
+  else regionWhyFs S camel L 0 c.fields
+
 def optField (j : Json) (k : String) : Option Json :=
   match j.getObjVal? k with
   | .ok .null => none
@@ -170,6 +200,7 @@ def runOne (cache : Cache) (j : Json) : Except String (List (String × Json) × 
       ("dom", Json.bool (rtCls S camel (levelDom S) c ms ov strict xc)),
       ("domE", Json.bool (rtCls S camel (levelDomE S) c ms ov strict xc)),
       ("region", Json.bool (regionOK S c ov camel)),
+      ("regionWhy", Json.str (regionWhy S c ov camel)),
       ("wf", Json.bool (wfFields c.fields)),
       ("conf", Json.bool (conf c.fields x)),
       ("sync", Json.bool (syncOK ms md kvs)),
